@@ -21,6 +21,9 @@
       reqOneResponsePerBranch    exactly one `writeResponse` per handler
       respPublishAsync           `go responseResolver.Publish(…)` (else the response loop blocks in
                                  Publish: `resLoopBusy`)
+      reqLoopBlocksOnlyOnRead / respLoopBlocksOnlyOnRead   false ⇒ something in the loop body between two reads can wait
+                                 (a semaphore, a lock, a channel): modelled as the strictest such limit, "the loop does not
+                                 take the next frame until the goroutine it started for this one has finished"
       respPublishKeyIsResCall / respPublishValueIsResValue   key and payload of the Publish
 
   Source map (rpc/registry.go):
@@ -291,7 +294,8 @@ def step (sk : Skeleton) (s : State) : Act → Option State
                       served := upd2 s.served e f.call true,
                       servedBy := upd2 s.servedBy e f.call h,
                       reqLoopBusy := updE s.reqLoopBusy e
-                        (if sk.reqResolveGoDepth = 0 ∨ sk.reqHandlerGoDepth = 0 then some h else none) }
+                        (if sk.reqResolveGoDepth = 0 ∨ sk.reqHandlerGoDepth = 0 ∨ sk.reqLoopBlocksOnlyOnRead = false
+                         then some h else none) }
       | none => none
     else none
   | .handlerEnter e h =>
@@ -300,7 +304,7 @@ def step (sk : Skeleton) (s : State) : Act → Option State
     | .resolving =>
       some { s with handlers := upd2 s.handlers e h { hd with pc := .running },
                     invocations := s.invocations ++ mkInv sk e h hd.req,
-                    reqLoopBusy := if sk.reqHandlerGoDepth = 0 then s.reqLoopBusy
+                    reqLoopBusy := if sk.reqHandlerGoDepth = 0 ∨ sk.reqLoopBlocksOnlyOnRead = false then s.reqLoopBusy
                                    else updE s.reqLoopBusy e (release (s.reqLoopBusy e) h) }
     | _ => none
   | .handlerStall e h =>
@@ -353,7 +357,7 @@ def step (sk : Skeleton) (s : State) : Act → Option State
                       nextPub := updE s.nextPub e (p + 1),
                       pubs := upd2 s.pubs e p (.pending f),
                       resLoopBusy := updE s.resLoopBusy e
-                        (if sk.respPublishAsync = true then none else some p) }
+                        (if sk.respPublishAsync = true ∧ sk.respLoopBlocksOnlyOnRead = true then none else some p) }
       | none => none
     else none
   | .publish e p t =>
